@@ -1,4 +1,5 @@
 import Pathrs.Proofs.KSpec
+import Pathrs.Proofs.KOpen
 
 /-!
 # C01 — in-root lookups match kernel `RESOLVE_IN_ROOT` semantics for every tree and path
@@ -14,6 +15,12 @@ the real library; they hold for every well-formed world, every path and every fl
 * `C01_kernel`       so does the kernel backend,
 * `C01_any_backend`  hence `Root::resolve{,_nofollow}` for whichever backend is active,
 * `C01_readlink`     `Root::readlink` is the body of that object,
+* `C01_open_subpath` `Root::open_subpath` (the one-shot open) on either backend is in-root resolution
+                     (no-follow iff `O_NOFOLLOW` is among the flags) followed by `open(2)` of the object
+                     found (`World.openKind`): the kernel backend with one `openat2`, the emulated one by
+                     resolving, inspecting the handle and re-opening it through `/proc/thread-self/fd/<n>`
+                     (`KOpen.run_reopen`: `Handle::reopen` yields the handle's own object);
+                     creation flags are refused by both (`C01_open_subpath_creation`),
 * `C01_inside_root`  the specification (and so every successful lookup) only returns objects that
                      have a path below the root,
 * `C01_loop_eloop`   a self-referencing link ends in `ELOOP` whatever budget was spent already;
@@ -183,3 +190,40 @@ example : Prog.run exWorld (Opath.resolve (kenv exWorld) exWorld.root b!"a/x" 0 
   show toOut (exWorld.kresolve (ecfg 0 false) 4 [b!"a", b!"x"] 0) = _
   rw [kresolve_selfloop exWorld_wf _ 4 6 b!"a" [b!"x"] rfl rfl (by decide) (by decide) (by simp)]
   rfl
+
+/-! ### the one-shot open -/
+
+open KOpen in
+/-- **`Root::open_subpath`**: for every well-formed tree, path and flag set without creation bits, whichever
+backend is active, the result is the object in-root resolution finds (following a trailing symlink unless
+`O_NOFOLLOW` is given), provided `open(2)` accepts the flags for an object of that kind — or the errno. -/
+theorem C01_open_subpath {w : World} (hw : w.WF) (r : Resolver) (path : Bytes) (hnul : path.contains 0 = false) (flags : Nat)
+    (hcf : (hasAny flags (O_CREAT ||| O_EXCL) || hasAll flags O_TMPFILE) = false) :
+    Prog.run w (Resolver.openOnce (kenv w) r w.root path flags) =
+      openSpec w (if r.emulated then ecfg r.rflags (hasAll flags O_NOFOLLOW) else kcfgK w r.rflags (hasAll flags O_NOFOLLOW))
+        path flags := by
+  obtain ⟨emu, rflags⟩ := r
+  cases emu
+  · exact run_openOnce_kernel hw path hnul rflags flags hcf
+  · exact run_openOnce_emulated hw path rflags flags hcf
+
+open KOpen in
+theorem C01_open_subpath_creation {w : World} (r : Resolver) (path : Bytes) (flags : Nat)
+    (hcf : (hasAny flags (O_CREAT ||| O_EXCL) || hasAll flags O_TMPFILE) = true) :
+    Prog.run w (Resolver.openOnce (kenv w) r w.root path flags) = .error .invalidArgument :=
+  run_openOnce_creation r path flags hcf
+
+open KOpen in
+/-- a successful one-shot open returns an object inside the root's tree -/
+theorem C01_open_subpath_inside {w : World} (hw : w.WF) (r : Resolver) (path : Bytes) (hnul : path.contains 0 = false)
+    (flags : Nat) (hcf : (hasAny flags (O_CREAT ||| O_EXCL) || hasAll flags O_TMPFILE) = false) (o : Fd)
+    (h : Prog.run w (Resolver.openOnce (kenv w) r w.root path flags) = .ok o) : ∃ p, w.dpath o = some p := by
+  rw [C01_open_subpath hw r path hnul flags hcf] at h
+  unfold openSpec at h
+  split at h
+  · rename_i c hc
+    split at h
+    · cases h; exact C01_inside_root hw _ path _ hc
+    · cases h
+  · cases h
+
